@@ -155,7 +155,7 @@ def h_ops(maxit, L, driver):
         for i, it in enumerate(st.its):
             if not it[2]:
                 ops.append(('next', i))
-        ops += [('list',), ('count',), ('index', max(L - 1, 0)), ('index', L), ('slice', 1, 12),
+        ops += [('list',), ('count',), ('index', max(L - 1, 0)), ('index', L), ('index', -1), ('index', -max(L, 1)), ('slice', 1, 12),
                 ('contains', mid)]
         if driver != 'seq':
             ops.append(('between', E[0] if E else D0, E[-1] if E else D0))
@@ -230,7 +230,7 @@ def eval_history(case):
         elif k == 'count':
             exp = ('ok', len(E))
         elif k == 'index':
-            exp = ('ok', E[op[1]]) if 0 <= op[1] < len(E) else ('IndexError',)
+            exp = ('ok', E[op[1]]) if -len(E) <= op[1] < len(E) else ('IndexError',)
         elif k == 'slice':
             exp = ('ok', E[op[1]:op[2]])
         elif k == 'contains':
@@ -352,14 +352,34 @@ def sched_harness(driver, L, ops):
 
 
 def split_schedule(case, nparts=12):
-    """root execution + first-level child prefixes of a heavy exploration, dealt into nparts sub-cases"""
+    """The same exploration cut into sub-cases for several cores: the root execution, and the child prefixes dealt
+    into nparts groups.  A child reached by a *free* switch (no preemption used) keeps the whole budget, so its
+    subtree is as large as the root's: such children are expanded again (their own execution becomes a one-execution
+    sub-case and their children join the pool), up to three levels deep.  Every prefix of the unsplit exploration is
+    explored exactly once."""
     driver, L, ops, bound, max_exec = case[:5]
     make, check, files = sched_harness(driver, L, ops)
-    st = schedule.explore(make, files, bound, check, children_only=True, verify_every=0)
-    kids = st.children
     out = [tuple(case[:5]) + ('root',)]
+    pool = []
+    level = [[]]
+    for depth in range(3):
+        nxt = []
+        for prefix in level:
+            st = schedule.explore(make, files, bound, check, children_only=True, verify_every=0,
+                                  roots=None if not prefix else [prefix])
+            if prefix:
+                out.append(tuple(case[:5]) + (('single', tuple(prefix)),))
+            for kid, cost in zip(st.children, st.children_cost):
+                if cost == 0 and depth < 2:
+                    nxt.append(kid)
+                else:
+                    pool.append(kid)
+        level = nxt
+        if not level:
+            break
+    pool.sort(key=len)
     for i in range(nparts):
-        part = kids[i::nparts]
+        part = pool[i::nparts]
         if part:
             out.append(tuple(case[:5]) + (tuple(tuple(p) for p in part),))
     return out
@@ -372,6 +392,8 @@ def eval_schedule(case):
     make, check, files = sched_harness(driver, L, ops)
     if roots == 'root':
         st = schedule.explore(make, files, bound, check, children_only=True)
+    elif roots and roots[0] == 'single':
+        st = schedule.explore(make, files, bound, check, children_only=True, roots=[list(roots[1])])
     else:
         st = schedule.explore(make, files, bound, check, max_exec=max_exec, roots=roots)
     viols = []
@@ -419,28 +441,47 @@ def run(ctx):
     sched_cases = []
     pairs = [('iterate', 'iterate'), ('iterate', 'list'), ('list', 'count'), ('iterate', 'last'), ('count', 'slice'),
              ('iterate', 'contains')]
-    for driver in ('seq', 'rrule') + (('set',) if ctx.thorough else ()):
-        for L in ([0, 1, 10, 11, 12, 21] if not ctx.thorough else LENGTHS):
-            for ops in pairs:
-                if not ctx.thorough and driver == 'rrule' and (L not in (1, 11) or ops not in pairs[:2]):
-                    continue
-                bound = 2
-                if not ctx.thorough and (driver != 'seq' or L not in (1, 11) or (L == 11 and ops not in pairs[:3])):
-                    bound = 1
-                sched_cases.append((driver, L, ops, bound, 150000))
-    for L in ((1, 11) if not ctx.thorough else (0, 1, 10, 11, 21)):
-        for ops in (pairs[:2] if not ctx.thorough else pairs):
-            sched_cases.append(('nested', L, ops, 1 if not ctx.thorough else 2, 150000))
-    if ctx.thorough:
-        for L in (1, 10, 11):
-            sched_cases.append(('seq', L, ('iterate', 'iterate', 'iterate'), 2, 300000))
-            sched_cases.append(('seq', L, ('iterate', 'list', 'count'), 2, 300000))
+    if not ctx.thorough:
+        for driver in ('seq', 'rrule'):
+            for L in [0, 1, 10, 11, 12, 21]:
+                for ops in pairs:
+                    if driver == 'rrule' and (L not in (1, 11) or ops not in pairs[:2]):
+                        continue
+                    bound = 2
+                    if driver != 'seq' or L not in (1, 11) or (L == 11 and ops not in pairs[:3]):
+                        bound = 1
+                    sched_cases.append((driver, L, ops, bound, 150000))
         for L in (1, 11):
-            sched_cases.append(('seq', L, ('iterate', 'iterate'), 3, 400000))
+            for ops in pairs[:2]:
+                sched_cases.append(('nested', L, ops, 1, 150000))
+    else:
+        # Every exploration below runs to completion (none reaches its execution cap; measured sizes in DESIGN 7.4).
+        # The drivers differ by an order of magnitude in scheduling points per item (a Seq item is one line, an rrule
+        # item some sixty), so the preemption bound that can be completed differs per driver and length.
+        for L in LENGTHS:
+            for ops in pairs:
+                sched_cases.append(('seq', L, ops, 2, 400000))
+                sched_cases.append(('rrule', L, ops, 2 if L <= 1 else 1, 400000))
+        for L in (0, 1, 10, 11, 21):
+            for ops in pairs[:3]:
+                sched_cases.append(('set', L, ops, 2 if (L <= 1 and ops != pairs[2]) else 1, 400000))
+        for L in (0, 1, 10, 11):
+            for ops in pairs[:2]:
+                sched_cases.append(('nested', L, ops, 2 if (L <= 1 and ops == pairs[0]) else 1, 400000))
+        triples = [('iterate', 'iterate', 'iterate'), ('iterate', 'list', 'count')]
+        for L in (0, 1, 2):
+            for ops in triples:
+                sched_cases.append(('seq', L, ops, 2, 400000))
+            for ops in pairs[:2]:
+                sched_cases.append(('seq', L, ops, 3, 400000))
+        for L in (10, 11, 12):
+            for ops in triples:
+                sched_cases.append(('seq', L, ops, 1, 400000))
     sched_cases.sort(key=lambda c: (-c[3], -c[1]))       # heaviest explorations first (load balance only)
     split = []
     for c in sched_cases:
-        if c[3] >= 2 and c[1] >= 9:
+        if (c[3] >= 2 and c[1] >= 9) or (c[0] in ('nested', 'set') and c[1] >= 9) or (c[3] >= 2 and c[0] != 'seq') or \
+                (len(c[2]) > 2 and c[3] >= 2) or c[3] >= 3:
             split.extend(split_schedule(c))      # the same exploration, subtree by subtree, on several cores
         else:
             split.append(c)
@@ -450,7 +491,8 @@ def run(ctx):
         'states': ctx.counts['states'],
         'schedules_explored': ctx.counts['executions'],
         'traces_validated_against_impl': ctx.counts['executions'] + ctx.counts['states'],
-        'bounds': {'preemption_bound': 2, 'threads': 3 if ctx.thorough else 2, 'lengths': LENGTHS,
+        'bounds': {'preemption_bound': 2 if not ctx.thorough else 'seq: 2 (3 for lengths 0-2); rrule/set/nested: 2 for lengths 0-1, else 1',
+                   'threads': 3 if ctx.thorough else 2, 'lengths': LENGTHS,
                    'granularity': 'source line of dateutil/rrule.py + lock acquisition'},
         'rule': 'E2: BFS over all interleavings of new/next/query operations of up to 2-4 iterators, canonical state '
                 '(per-iterator cursor/finished/kind/started, cache length, complete flag, known length, lock held); '
